@@ -1,0 +1,29 @@
+//go:build verif
+// +build verif
+
+package backend
+
+import (
+	"net"
+	"time"
+
+	"github.com/XiaoMi/Gaea/mysql"
+	"github.com/XiaoMi/Gaea/util"
+)
+
+// Add-only export for the verification harness (property C39, whole sessions).
+
+// VerifC39NewPoolN is VerifC39NewPool with a capacity of n connections: with n = 1 the
+// connection a statement gives back is the one the next statement gets.
+func VerifC39NewPoolN(addr string, n int, dial func() net.Conn, made func(*DirectConnection)) ConnectionPool {
+	cp := NewConnectionPool(addr, "verif", "", "", n, n, time.Hour, "utf8mb4",
+		mysql.CollationNames[mysql.Charsets["utf8mb4"]], 0, "", "", time.Second).(*connectionPoolImpl)
+	cp.connections, _ = util.NewResourcePool(func() (util.Resource, error) {
+		dc := VerifC39NewDirectConn(dial(), addr)
+		if made != nil {
+			made(dc)
+		}
+		return &pooledConnectImpl{directConnection: dc, pool: cp}, nil
+	}, n, n, time.Hour)
+	return cp
+}
